@@ -75,6 +75,68 @@ def wfChain (c : Chain) : Bool := c.all wfNode
 def paramsToJson (c : Chain) : Json := enc (paramsToDict c)
 def paramsFromJson (fuel : Nat) (j : Json) : R Chain := (dec j).bind (paramsFromDict fuel)
 
+/-- `isinstance(v, collections.abc.Iterable)` -/
+def isIterableV : PyVal → Bool
+  | .list _ | .set _ | .ndarray _ _ _ | .str _ | .dict _ => true
+  | _ => false
+
+/-! ### mutators of a parameters object (used after unpacking, on a child or on
+its original) -/
+
+/-- `parameters[k] = v`: an existing key keeps its position, a new one is appended -/
+def setKV (k : String) (v : PyVal) : List (String × PyVal) → List (String × PyVal)
+  | [] => [(k, v)]
+  | (k', v') :: r => if k' == k then (k', v) :: r else (k', v') :: setKV k v r
+
+def removeKV (k : String) : List (String × PyVal) → List (String × PyVal)
+  | [] => []
+  | (k', v') :: r => if k' == k then removeKV k r else (k', v') :: removeKV k r
+
+inductive POp where
+  /-- `p.add(name, v)` / `p[name] = v` -/
+  | set (name : String) (v : PyVal)
+  /-- `p.remove(name)` -/
+  | remove (name : String)
+  /-- `p.set_unpack_parameter(name)` -/
+  | mark (name : String)
+  /-- `p.set_unpack_parameter(name, False)` -/
+  | unmark (name : String)
+  deriving Repr, Inhabited
+
+def Node.apply (n : Node) : POp → R Node
+  | .set k v => .ok { n with parameters := setKV k v n.parameters }
+  | .remove k =>
+    match lookup k n.parameters with
+    | .none => raise .KeyError
+    | some _ => .ok { n with parameters := removeKV k n.parameters, unpacked := n.unpacked.filter (· != k) }
+  | .mark k =>
+    match lookup k n.parameters with
+    | .none => raise .ValueError
+    | some v =>
+      if isIterableV v then
+        .ok { n with unpacked := if n.unpacked.contains k then n.unpacked else n.unpacked ++ [k] }
+      else raise .ValueError
+  | .unmark k =>
+    match lookup k n.parameters with
+    | .none => raise .ValueError
+    | some v =>
+      if isIterableV v then
+        if n.unpacked.contains k then .ok { n with unpacked := n.unpacked.filter (· != k) }
+        else raise .KeyError
+      else raise .ValueError
+
+/-- the operation applied to the object (`level = 0`), to its
+    `_original_sim_params` (`1`), … ; the other objects of the chain are untouched
+    (a child holds deep copies of its parent's values) -/
+def applyAt : Chain → Nat → POp → R Chain
+  | [], _, _ => .error .unmodelled
+  | n :: rest, 0, op => (n.apply op).bind fun n' => .ok (n' :: rest)
+  | n :: rest, l + 1, op => (applyAt rest l op).bind fun rest' => .ok (n :: rest')
+
+def applyOps (c : Chain) : List (Nat × POp) → R Chain
+  | [] => .ok c
+  | (l, op) :: ops => (applyAt c l op).bind fun c' => applyOps c' ops
+
 /-! ## Result -/
 
 structure Result where
